@@ -254,6 +254,9 @@ FINALIZER = "kopf.zalando.org/KopfFinalizerMarker"
 OTHER_FINALIZER = "operators.example.org/held-by-the-operator"
 
 
+ASSUMPTIONS = ASSUMPTIONS + x01_reactor.ASSUMPTIONS
+TRUSTED = TRUSTED + x01_reactor.TRUSTED
+
 def own_fin(sc: dict) -> str:
     """The framework's finalizer in this scenario: `settings.persistence.finalizer` when configured, else kopf's default
     name (which is then, on an object that carries it, somebody else's: white-box review C03 m8)."""
